@@ -36,13 +36,16 @@ func run(cfg lib.Cfg) error {
 	if cfg.Thorough() {
 		n = 4000
 	}
-	opts := rows.GenOpts{Filters: true, LogAddrP: 55, OddP: 8}
+	opts := rows.GenOpts{Filters: true, LogAddrP: 55, OddP: 8, RefMixP: 14}
 	for i := 0; i < n; i++ {
 		c := rows.GenCase(r, opts, i)
 		if c.Decl.Mode() == "log" && r.Chance(1, 2) {
 			c.Path = "pushdown"
 		}
-		if len(c.DB) == 0 && !rows.HasRef(c) && r.Chance(1, 3) {
+		if strings.Contains(c.Kind, "-refmix") {
+			c.Path = "pushdown"
+		}
+		if rows.Validatable(c) && !strings.Contains(c.Kind, "-odd") && r.Chance(1, 3) {
 			// built the way the program builds it: through config.ValidateFix
 			rows.WithRequired(&c.Decl)
 			c.Decl.Agg = strings.ToLower(c.Decl.Agg) // the configuration accepts "", "and", "or" only
